@@ -368,3 +368,96 @@ for _c in range(7):
         body_entry_points(_c, 1, 2)
     except Exception:
         pass
+
+
+class MS(Converter):
+    """marking converter for strs"""
+    def expected(self, plural=False):
+        return "marked str"
+
+    def try_convert(self, val):
+        if isinstance(val, str):
+            return ('in', 9, val)
+        raise ParseInterrupt()
+
+    def collect_errors(self, val):
+        return None if isinstance(val, str) else WrongTypeError(self.expected(), val)
+
+    def into_data(self, val):
+        return ('out', 9, val)
+
+    def __hash__(self):
+        return hash('MS')
+
+    def __eq__(self, other):
+        return isinstance(other, MS)
+
+
+class DBase(PaneBase, custom={str: MS()}):
+    pass
+
+
+class DInnerOwn(PaneBase, custom={str: MS()}):
+    """own handlers answer for str only: for int they defer"""
+    n: int = 0
+    s: str = ''
+    ns: List[int] = field(default_factory=list)
+
+
+class DInnerInh(DBase):
+    n: int = 0
+    s: str = ''
+    ns: List[int] = field(default_factory=list)
+
+
+class DOuter(PaneBase, custom={int: MC(5)}):
+    own: DInnerOwn
+    inh: DInnerInh
+    many: Dict[str, DInnerOwn] = field(default_factory=dict)
+
+
+class DOuterOuter(PaneBase, custom={int: MC(4)}):
+    """two levels out: the nearer enclosing class (DOuter) wins for int"""
+    o: DOuter
+
+
+make_converter(DOuterOuter)
+make_converter(DOuter)
+
+
+@obligation(pre="0 <= depth <= 1", witnesses=(0,), timeout=240)
+def body_deferring_inner(depth: int, n: int, m: int) -> int:
+    """an inner dataclass whose own (or inherited) handlers defer for a type falls through to the handlers of the enclosing dataclasses, nearest first"""
+    inner = {'n': n, 's': 'q', 'ns': [m]}
+    data = {'own': inner, 'inh': inner, 'many': {'k': inner}}
+    try:
+        if depth == 0:
+            r = DOuter.from_data(data)
+        else:
+            r = DOuterOuter.from_data({'o': data}).o
+    except Exception as ex:
+        if crosshair_exc(ex):
+            raise
+        return 10
+    for x in (r.own, r.inh, r.many['k']):
+        if not eqv(x.n, ('in', 5, n)) or not eqv(x.ns, [('in', 5, m)]) or not eqv(x.s, ('in', 9, 'q')):
+            return 1
+    try:
+        plain = DInnerOwn.make_unchecked(n=n, s='q', ns=[m])
+        plain2 = DInnerInh.make_unchecked(n=n, s='q', ns=[m])
+        d = DOuter.make_unchecked(own=plain, inh=plain2, many={'k': plain}).into_data()
+    except Exception as ex:
+        if crosshair_exc(ex):
+            raise
+        return 10
+    for x in (d['own'], d['inh'], d['many']['k']):
+        if not eqv(x['n'], ('out', 5, n)) or not eqv(list(x['ns']), [('out', 5, m)]) or not eqv(x['s'], ('out', 9, 'q')):
+            return 2
+    return 0
+
+
+try:
+    body_deferring_inner(0, 1, 2)
+    body_deferring_inner(1, 1, 2)
+except Exception:
+    pass
